@@ -35,8 +35,9 @@ add("C06", "exploration",
 
 add("C07", "fault_enumeration",
     "For each (workload, cell) the fault-free trace is recorded and the process tree is SIGKILLed before and after file-system "
-    "events of that trace (quick: one representative index per distinct stage/label x phase; thorough: every index, plus "
-    "resume with other --threads/schedules and random workloads/cells); after each kill `isoquant.py --resume` runs and "
+    "events of that trace (quick: one representative index per distinct stage/label x phase, incl. a two-experiment workload and "
+    "late-stage resumes with another --threads value; thorough: every index, plus resume with other --threads/schedules/memory "
+    "mode, a second kill during the resume, and random workloads/cells); after each kill `isoquant.py --resume` runs and "
     "all outputs are compared with the uninterrupted control run. Real processes, real buffers, real destructors.",
     "A kill loses user-space buffers only (no power-loss semantics); C-level writes of pysam/pyfaidx/sqlite are single events; "
     "crash points are the tracked file-system mutations (open for write, raw write/flush, remove, rename, makedirs).",
@@ -52,22 +53,33 @@ _SWEEP_TEXT = ("Seeded search: complete simulated executions of the real pipelin
                "seeded file-system event and resumed; the final outputs of every run are judged by this property's own oracle. ")
 add("C02", "exploration", _SWEEP_TEXT + "Oracle: every cell of the gene/transcript/transcript-model tables is 0 or the documented "
     "weighted sum of the reported assignments, per-read total <= 1, __ambiguous/__no_feature/__not_aligned, TPM = rescaled counts; "
-    "all five strategies for genes and transcripts x both normalisations are swept.", _SWEEP_NOTE,
-    "deterministic simulation sweep (schedules, hash seeds, crash+resume) + counts-model oracle over reported assignments")
+    "all five strategies for genes and transcripts x both normalisations are swept; a read counted as ambiguous must be shared by "
+    ">= 2 features. A machine layer pushes seeded counting operations through the real per-chromosome counters -> dump -> "
+    "merge_counts -> TPM hand-over (dealt onto 1-4 chromosomes) and compares the merged tables with the documented weighting.",
+    _SWEEP_NOTE,
+    "deterministic simulation sweep (schedules, hash seeds, crash+resume) + counts-model oracle over reported assignments; "
+    "Hypothesis counter machine over the per-chromosome dump/merge hand-over")
 add("C03", "exploration", _SWEEP_TEXT + "Oracle: GTF structure (exons sorted, disjoint, in bounds; transcript/gene records once and "
     "consistent), reference ids reproduce reference structure, extended = reference + novel(models).", _SWEEP_NOTE +
     " Weakest simulation case: only 'reported, and reported once' depends on history/placement; coordinate clauses are by-products.",
     "deterministic simulation sweep (schedules, hash seeds, multi-experiment history, crash+resume) + GTF structure oracle")
-add("C05", "exploration", _SWEEP_TEXT + "Oracle: the set of reported read ids equals the generator's set of reads with a mapped, "
-    "non-supplementary MAPQ-60 record (both memory back-ends), no identical records, log statistics = input record counts; half of "
-    "the workloads contain a > 64 kb read island that IsoQuant splits at a coverage valley (a read straddling the split with a "
-    "losing upstream secondary, short leading/tail reads, a small island ending in the bin where the long one starts).",
-    _SWEEP_NOTE + " Loci with >= 1024 reads are not generated (length, not depth, triggers the split in these workloads).",
-    "deterministic simulation sweep (placement, memory back-end, crash+resume) + read-accounting oracle against generator ground truth")
+add("C05", "exploration", _SWEEP_TEXT + "Oracle: every read with a mapped primary record at or above all documented MAPQ cut-offs "
+    "(command line or defaults) is reported in BED and read_assignments (both memory back-ends), no read without admissible alignment "
+    "is, no identical records, log statistics = input record counts; workloads contain > 64 kb read islands split at coverage "
+    "valleys (straddling read, short leading/tail reads), >= 1024 short reads inside one coverage bin, deep islands whose last "
+    "valley is their last bin, multi-file experiments with unmapped records, mapping qualities on and around the cut-offs. A machine "
+    "layer feeds seeded read islands to the real coverage binning, split_coverage_regions and InMemoryAlignmentStorage and compares "
+    "with a brute-force overlap model (no alignment without a region; store returns exactly the overlapping alignments).",
+    _SWEEP_NOTE,
+    "deterministic simulation sweep (placement, memory back-end, crash+resume) + read-accounting oracle against generator ground "
+    "truth; Hypothesis region machine over the real splitter and in-memory store")
 add("C09", "exploration", _SWEEP_TEXT + "Oracle: run does not abort on ungroupable reads, matrix == linear triples, groups sum to the "
     "ungrouped value, every (feature, group) cell equals the documented weighting of the reads whose ground-truth group it is; "
-    "modes tag/read_id/file/file_name x formats both/matrix/linear.", _SWEEP_NOTE,
-    "deterministic simulation sweep (hash seeds, placement, stage hand-over) + grouped-table oracle against generator ground truth")
+    "modes tag (RG or another tag)/read_id/file (column, delimiter and gzip layouts)/file_name (--labels, list-file and YAML labels) "
+    "x formats both/matrix/linear. A machine layer pushes seeded counting operations with read groups through the real per-chromosome "
+    "counters -> dump -> merge_counts hand-over and checks matrix/linear triples, group sums and partition independence.", _SWEEP_NOTE,
+    "deterministic simulation sweep (hash seeds, placement, stage hand-over) + grouped-table oracle against generator ground truth; "
+    "Hypothesis counter machine over the per-chromosome dump/merge hand-over")
 add("C17", "exploration", _SWEEP_TEXT + "Oracle: ids unique per file, novel ids disjoint from reference ids, exon_id <-> exon bijection "
     "across both GTFs and all chromosomes, reference exon_ids preserved; workloads include annotations with IsoQuant-style ids.",
     _SWEEP_NOTE, "deterministic simulation sweep (placement of chromosomes on workers, hash seeds, resume) + identifier oracle")
@@ -76,7 +88,8 @@ add("C10", "exploration",
     "Seeded search over multi-experiment invocations: 2-3 experiments (same or different read subsets, different polyA "
     "content) given as YAML and as --bam_list, every permutation of their order (thorough) x --threads {1,2,4} x hash seeds x "
     "SimPool schedules; each experiment's files are compared byte-wise with a stand-alone single-experiment run, and the "
-    "combined_* tables cell by cell with the individual tables.",
+    "combined_* tables cell by cell with the individual tables; list files whose experiments are separated by empty lines or all "
+    "carry one name (folders matched to the stand-alone results by content).",
     "Trusted: stand-alone reference runs (threads 1, hash seed 0) and the table parser; experiments come from the seeded generator.",
     "deterministic simulation of in-process histories: permuted experiment sequences in one interpreter vs stand-alone golden runs")
 
@@ -86,7 +99,9 @@ add("C20", "exploration",
     "pre-emption point decided by the scheduler (PCT, starvation windows, yield-after-mutation, random, round robin); families: same GTF, different "
     "GTFs, same basename in different folders, gz / --complete_genedb mixes, a shared --genedb_output folder, adopt-while-owner-"
     "rebuilds after a pre-history; plus a function-level system in which 2-8 actors run the lookup/build/store cycle of the index, "
-    "BED and alignment caches (read_mapper.find_stored_*/store_*) with stub artefacts whose content tags reveal a foreign artefact. "
+    "BED and alignment caches (read_mapper.find_stored_*/store_*) and the db-to-GTF direction of the annotation cache with stub "
+    "artefacts whose content tags reveal a foreign artefact (inputs optionally carry identical time stamps); a family in which one "
+    "of the concurrent runs is SIGKILLed at a seeded shared event (survivors are judged). "
     "Judged per actor: exit 0, outputs equal the same invocation alone, database used = conversion of its own annotation, cache "
     "files well-formed.",
     "Trusted: logical mtimes (change iff modified), atomicity of sqlite commits and of pysam/pyfaidx writes; reference .fai "
@@ -100,7 +115,9 @@ add("C12", "exploration",
     "with logical mtimes - after every run the database actually used must be a fresh conversion of the current annotation with "
     "the current flags; (R) one workload as .gtf/.gtf.gz/.db x --complete_genedb under varying threads/schedules: outputs "
     "byte-identical; (P) the same reads dealt into 1..4 BAM files in permuted order: assignments, BED and ungrouped tables equal "
-    "as multisets; plus directed stale-cache histories (two annotations with one file name competing for an output folder) "
+    "as multisets (files may list the @SQ lines in different orders; read-through reads join neighbouring read islands); (F) an "
+    "output folder reused with --force and another plain-gzip reference of the same name; plus directed stale-cache histories "
+    "(two annotations with one file name competing for an output folder, annotation replaced by older content) "
     "and a merger machine that deals sorted record streams into 1-5 files and checks the real BAMOnlineMerger output.",
     "Trusted: logical mtimes (content change => mtime change), harness-side fresh conversions with real gffutils; all "
     "representations of one workload run under one hash seed (hash-seed effects belong to C06).",
@@ -124,7 +141,8 @@ add("C15", "exploration",
     "TmpFileAssignmentPrinter and reads them back with both real readers (full: field-wise equality; abridged: projection equality "
     "and identical record sequence = byte alignment), compares the compact record of the --high_memory object path with the one "
     "of the stream path, and round-trips the *_multimappers_* framing and the _info file. Pipeline: a --keep_tmp run followed by "
-    "a --read_assignments run under another hash seed/threads/schedule must reproduce the first run's outputs.",
+    "a --read_assignments run (one saved prefix, or the prefixes of two experiments) under another hash seed/threads/schedule must "
+    "reproduce the first run's outputs.",
     "Trusted: the list model and field extractors; reader calls are bounded by a watchdog (a misaligned stream may loop 2^32 "
     "times); exon lists are non-empty and strings shorter than 65535 bytes (outside the format's domain otherwise).",
     "deterministic simulation of record histories through storage: Hypothesis stateful machine over the real writer and both real "
@@ -136,7 +154,9 @@ add("C18", "exploration",
     "IOSupport / StrandDetector; every answer must equal a pure function of (sequence, introns, strand) whatever was asked "
     "before - including the same intron on opposite strands in both orders. Pipeline: --check_canonical runs of workloads with "
     "antisense genes sharing introns and non-canonical genes under permuted tie order, placement and hash seed; every Canonical "
-    "flag and the strand of every novel spliced model is recomputed from the FASTA.",
+    "flag and the strand of every novel spliced model is recomputed from the FASTA; reads with an exon outside the annotated gene "
+    "span; unannotated loci with non-canonical introns whose model strand must not contradict the unanimous polyA/polyT evidence of "
+    "the supporting reads (generator ground truth).",
     "Trusted: the 15-line reference functions; strand '.' records are only checked for a well-formed flag; models sharing an intron "
     "with a reference transcript of the other strand are not judged for strand.",
     "deterministic simulation of query histories against per-locus memos (Hypothesis sequences vs pure reference function) + "
